@@ -4,6 +4,6 @@ PATCH="$1"; P="$2"; T="${3:-quick}"
 cd /repo && git apply "$PATCH" || { echo "patch does not apply"; exit 3; }
 cd /verif && timeout 3000 ./check "$P" --tier "$T" > /tmp/try_mutant_$P.log 2>&1; RC=$?
 git -C /repo checkout -- .
-git -C /verif checkout -- "evidence/$P.json" 2>/dev/null  # evidence must come from runs on the unchanged tree
+git -C /verif checkout -- "evidence/$P.json" lean/TdVerif/Gen 2>/dev/null  # evidence must come from runs on the unchanged tree
 tail -6 /tmp/try_mutant_$P.log
 echo "check exit=$RC"
